@@ -1,6 +1,7 @@
 (* Proofs_SupportGen.v — the Gallina definitions that gen/ast2coq.py regenerates from the clang AST
-   of /repo/include/bspline/support/Support.h on every run (gen/SupportGen.v, module G) coincide
-   with the hand-written model of Support.v.
+   of /repo/include/bspline/support/Support.h (and of Grid<T>::at in Grid.h, Spline<T,order>::checkValidity
+   in Spline.h) on every run (gen/SupportGen.v, module G) coincide with the hand-written model of
+   Support.v / Spline.v.
 
    If Support.h is edited so that the meaning of one of the translated member functions changes
    (say `index < _endIndex` becomes `index <= _endIndex`), the regenerated definition changes and
@@ -12,11 +13,25 @@
    are in the context.  Harmless rewrites of the C++ (reordered conjuncts, `a > b` for `b < a`,
    `?:` for `if`/`else`, extra `const` locals, early returns) keep them compiling. *)
 From Coq Require Import List NArith ZArith Bool Lia ZifyBool ZifyN.
-From BSpl Require Import Scalar Outcome Support Proofs_Support.
+From BSpl Require Import Scalar Outcome Support Spline Proofs_Support.
 From BSpl.gen Require Import SupportGen.
 Local Open Scope N_scope.
 
 Ltac Zify.zify_post_hook ::= Z.div_mod_to_equations.
+
+(* ---- what a generated [G.gres] means in the model: s is *this, t the other operand ---- *)
+Section Interp.
+  Context {F : Type} {K : Ops F}.
+
+  Definition gres_interp (s t : support F) (r : G.gres) : outcome (support F) :=
+    match r with
+    | G.GThrow e => Throw e
+    | G.GEmpty => create_empty (sgrid s)
+    | G.GThis => Ok s
+    | G.GOther => Ok t
+    | G.GCtor a b => sup_ctor (sgrid s) a b
+    end.
+End Interp.
 
 (* ---- the generic tactic ---- *)
 
@@ -26,8 +41,10 @@ Ltac gen_unfold :=
     [G.size G.empty G.containsIntervals G.relativeFromAbsolute G.intervalIndexFromAbsolute
      G.absoluteFromRelative G.numberOfIntervals G.valid G.checkValidity
      G.at_guard G.at_throw G.at_index
+     G.eq G.createEmpty G.calcUnion G.calcIntersection G.grid_at_guard G.grid_at_throw
+     G.spline_valid G.spline_checkValidity gres_interp
      sup_size sup_is_empty contains_intervals rel_from_abs interval_index abs_from_rel
-     num_intervals sup_valid sup_at grid_size].
+     num_intervals sup_valid sup_at grid_size grid_at sup_eqb calc_union calc_inter spl_valid].
 
 (* the invariant, if present, as plain arithmetic over the atoms sstart s, sstop s, nlen (sgrid s) *)
 Ltac gen_hyps :=
@@ -35,10 +52,14 @@ Ltac gen_hyps :=
   | H : SInv _ |- _ => unfold SInv in H
   end.
 
-(* one case split per `if` (on its whole condition, not on every comparison inside it) *)
+(* one case split per `if` (on its whole condition, not on every comparison inside it), innermost
+   first: a condition that itself contains an `if` is left for later, so that no `if` ever ends up
+   in a hypothesis, where [lia] would have to treat it as an opaque term *)
+Ltac gen_has_if c := match c with context [if _ then _ else _] => idtac end.
 Ltac gen_cases :=
   repeat match goal with
-  | |- context [if ?c then _ else _] => let E := fresh "Ecase" in destruct c eqn:E
+  | |- context [if ?c then _ else _] =>
+      tryif gen_has_if c then fail else (let E := fresh "Ecase" in destruct c eqn:E)
   end.
 
 Ltac gen_arith := unfold wadd, wsub, W in *; lia.
@@ -51,7 +72,17 @@ Ltac gen_close :=
     | f_equal; first [ reflexivity | gen_arith ]
     | f_equal; f_equal; first [ reflexivity | gen_arith ] ].
 
-Ltac gen_agree := intros; gen_unfold; gen_hyps; gen_cases; gen_close.
+(* hasSameGrid(s) is not integer logic: both of its values are considered ([lia] does not reason
+   about an uninterpreted boolean) *)
+Ltac gen_abstract :=
+  repeat match goal with
+  | |- context [has_same_grid ?a ?b] =>
+      let sg := fresh "same_grid" in
+      generalize (has_same_grid a b); intros sg; destruct sg; cbn [negb andb orb]
+  end.
+
+(* [cbv beta iota] after the case splits: [gres_interp] applied to a constructor *)
+Ltac gen_agree := intros; gen_unfold; gen_hyps; gen_abstract; gen_cases; cbv beta iota; gen_close.
 
 Section SupportGen.
   Context {F : Type} {K : Ops F}.
@@ -119,6 +150,54 @@ Section SupportGen.
     else grid_at (sgrid s) (G.at_index (gs s) (sstart s) (sstop s) i).
   Proof. gen_agree. Qed.
 
+  (* ---- operator==, calcUnion, calcIntersection: the index logic; hasSameGrid(s) is the parameter
+          same_grid, instantiated with the model's [has_same_grid s t] ---- *)
+  Implicit Types t : support F.
+
+  Lemma gen_eq_eq s t :
+    G.eq (gs s) (sstart s) (sstop s) (sstart t) (sstop t) (has_same_grid s t) = sup_eqb s t.
+  Proof. gen_agree. Qed.
+
+  (* createEmpty(grid) is Support{grid, 0, 0} *)
+  Lemma gen_createEmpty_eq s t : gres_interp s t G.createEmpty = create_empty (sgrid s).
+  Proof. gen_agree. Qed.
+
+  Lemma gen_calcUnion_eq s t :
+    gres_interp s t (G.calcUnion (gs s) (sstart s) (sstop s) (sstart t) (sstop t) (has_same_grid s t))
+    = calc_union s t.
+  Proof. gen_agree. Qed.
+
+  Lemma gen_calcIntersection_eq s t :
+    gres_interp s t (G.calcIntersection (gs s) (sstart s) (sstop s) (sstart t) (sstop t) (has_same_grid s t))
+    = calc_inter s t.
+  Proof. gen_agree. Qed.
+
+  (* ---- Grid::at ---- *)
+  Lemma gen_grid_at_guard_eq (g : list F) i : G.grid_at_guard (grid_size g) i = (grid_size g <=? i).
+  Proof. gen_agree. Qed.
+
+  Lemma gen_grid_at_eq (g : list F) i :
+    grid_at g i = if G.grid_at_guard (grid_size g) i then Throw G.grid_at_throw else grid_sub g i.
+  Proof. gen_agree. Qed.
+
+  (* ---- Spline::checkValidity(support, coefficients); ncoefs = coefficients.size() ---- *)
+  Lemma gen_spline_valid_eq s n :
+    G.spline_valid (gs s) (sstart s) (sstop s) n = spl_valid s n.
+  Proof. gen_agree. Qed.
+
+  Lemma gen_spline_checkValidity_eq s n :
+    G.spline_checkValidity (gs s) (sstart s) (sstop s) n
+    = if spl_valid s n then Ok tt else Throw INCONSISTENT_DATA.
+  Proof. gen_agree. Qed.
+
+  Lemma gen_spl_ctor_eq ord s (coefs : list (list F)) :
+    spl_ctor ord s coefs
+    = (do _ <- G.spline_checkValidity (gs s) (sstart s) (sstop s) (nlen coefs); Ok (mkSpl s ord coefs)).
+  Proof.
+    unfold spl_ctor. rewrite gen_spline_checkValidity_eq.
+    destruct (spl_valid s (nlen coefs)); reflexivity.
+  Qed.
+
   (* ---- summary ---- *)
   Theorem support_gen_agrees s : SInv s ->
     G.size (gs s) (sstart s) (sstop s) = sup_size s /\
@@ -159,3 +238,12 @@ Print Assumptions gen_checkValidity_eq.
 Print Assumptions gen_sup_ctor_eq.
 Print Assumptions gen_at_eq.
 Print Assumptions support_gen_agrees.
+Print Assumptions gen_eq_eq.
+Print Assumptions gen_createEmpty_eq.
+Print Assumptions gen_calcUnion_eq.
+Print Assumptions gen_calcIntersection_eq.
+Print Assumptions gen_grid_at_guard_eq.
+Print Assumptions gen_grid_at_eq.
+Print Assumptions gen_spline_valid_eq.
+Print Assumptions gen_spline_checkValidity_eq.
+Print Assumptions gen_spl_ctor_eq.
